@@ -52,6 +52,7 @@ inductive Call where
   | rmtree (d : Path)                   -- shutil.rmtree
   | zipData (z : Path) (name : Nat) (src : Path)  -- ZipFile(z,'a').write: member data goes over the old central directory
   | zipDir (z : Path)                   -- ZipFile.close: the new central directory is written
+  | zipTrunc (z : Path)                 -- zipfile's own fallback: open(z,'r+b') failed -> open(z,'w+b'): a fresh empty archive
   deriving DecidableEq, Repr
 
 def isDir (fs : FS) (p : Path) : Bool := fs p == some .dir
@@ -99,6 +100,10 @@ def step (fs : FS) : Call → Except Errno FS
     match fs z with
     | some (.archive ms _) => .ok (upd fs z (some (.archive ms false)))
     | _ => .error .ebadzip
+  | .zipTrunc z =>
+    if isDir fs z then .error .eisdir
+    else if isDir fs (parent z) then .ok (upd fs z (some (.archive [] false)))
+    else .error .enoent
 
 /-- the paths a call may modify -/
 def writesTo : Call → Path → Bool
@@ -111,6 +116,7 @@ def writesTo : Call → Path → Bool
   | .rmtree d, p => under d p
   | .zipData z _ _, p => p == z
   | .zipDir z, p => p == z
+  | .zipTrunc z, p => p == z
 
 /-- which part of the Python code issues a call (decides the handler when it raises) -/
 inductive Phase where
@@ -242,7 +248,14 @@ def handler (c : Cfg) : Phase → List Instr
     -- `finally: src.rename(dest)` still runs, then the error propagates past the rmtree
     if c.guarded then [⟨.rmtree c.tmpdir, .cleanup⟩] else [⟨.rename c.tmpfile c.dest, .commitRename⟩]
   | .commitRename => if c.guarded then [⟨.rmtree c.tmpdir, .cleanup⟩] else []
-  | .zipData => if c.guarded then [⟨.rmtree c.tmpdir, .cleanup⟩] else []   -- the ZipFile constructor / write raised
+  | .zipData =>
+    -- the failing call is the ZipFile constructor's open(archive, 'r+b'): zipfile itself swallows the OSError and
+    -- retries with 'w+b' (a fresh, EMPTY archive), so no exception reaches cogent3 and the write goes on
+    if c.guarded then
+      (match c.zipMember with
+       | some m => [⟨.zipTrunc c.dest, .zipData⟩, ⟨.zipData c.dest m c.tmpfile, .zipData⟩, ⟨.zipDir c.dest, .zipDir⟩]
+       | none => []) ++ [⟨.rmtree c.tmpdir, .cleanup⟩]
+    else []
   | .zipDir => if c.guarded then [⟨.rmtree c.tmpdir, .cleanup⟩] else []
   | .cleanup => []
 
@@ -258,6 +271,20 @@ def faultState (c : Cfg) (fs : FS) (k : Nat) : FS :=
 /-- the calls issued when call `k` raises: the first `k`, the failing one, then the handler's -/
 def faultTrace (c : Cfg) (k : Nat) : List Instr :=
   (program c).take (k + 1) ++ handler c (phaseAt c k)
+
+/-! ### `atomic_write(path, tmpdir=D)`: the temp file lives in a directory supplied by the caller -/
+
+inductive TmpCleanup where
+  | rmtreeDir    -- as coded: `shutil.rmtree(self._tmppath.parent)` — the caller's directory
+  | unlinkFile   -- repaired: only the temp file is removed (`unlink(missing_ok=True)`)
+  deriving DecidableEq, Repr
+
+/-- the calls of a successful write on the `tmpdir=` route: no mkdtemp; `c.tmpdir` is the caller's directory -/
+def programTmp (c : Cfg) (cl : TmpCleanup) : List Instr :=
+  [⟨.openW c.tmpfile, .enter⟩] ++ writes c c.chunks ++ [closeInstr c] ++ [⟨.rename c.tmpfile c.dest, .commitRename⟩] ++
+    [match cl with
+     | .rmtreeDir => ⟨.rmtree c.tmpdir, .cleanup⟩
+     | .unlinkFile => ⟨.unlink c.tmpfile, .commitUnlink⟩]
 
 /-- readable members of an archive node (`none`: unreadable / not an archive) -/
 def readable : Option Node → Option (List (Nat × Data))
